@@ -47,8 +47,12 @@ package webrtc
 //@ func extractFingerprint
 //@ props C30
 //@ requires desc != nil && (forall k int :: 0 <= k && k < len(desc.MediaDescriptions) ==> desc.MediaDescriptions[k] != nil)
+// (C03: a description accepted here has non-empty ICE credentials — what the later
+// setRemoteCredentials call is assumed not to reject; without it a rejection would arrive
+// after the description has been applied)
 //@ func extractICEDetails
-//@ props C30
+//@ props C30 C03
+//@ ensures err == nil ==> ret0.Ufrag != "" && ret0.Password != ""
 //@ requires log != nil && desc != nil && (forall k int :: 0 <= k && k < len(desc.MediaDescriptions) ==> desc.MediaDescriptions[k] != nil)
 //@ func extractICEDetailsFromMedia
 //@ props C30
